@@ -68,6 +68,15 @@ func C11_Offsets() {
 			all[i] = files[i]
 		}
 		fs2 = parsley.NewFileSet(all...)
+		// the caller's slice and sets built from parts of it afterwards are
+		// none of this set's business
+		decoy := &fakeFile{name: "decoy"}
+		if k >= 2 {
+			other := parsley.NewFileSet(all[:k-1]...)
+			other.AddFile(decoy)
+		}
+		all[0] = &fakeFile{name: "decoy0"}
+		rt.Cover("caller's slice reused after construction")
 	} else {
 		fs2 = parsley.NewFileSet()
 		for _, f := range files {
